@@ -894,15 +894,55 @@ func ruleFlagUses(w *World, r *Report) {
 				}
 			}
 		}
+		// the value form `suppressed := !Unsafe && IsDangerousURL(x); if !suppressed { write }`: the unsafe edge and the
+		// block that evaluates the predicate meet in a block whose branch tests a phi of (false, predicate)
+		var vfJoin *ssa.BasicBlock
+		var vfDangerTrue, vfDangerFalse *ssa.BasicBlock
+		if !guard && len(fb.Succs) == 1 && fb.Succs[0] == tbU {
+			jb := tbU
+			if ji, ok := jb.Instrs[len(jb.Instrs)-1].(*ssa.If); ok {
+				cond, neg := ji.Cond, false
+				if u, ok := cond.(*ssa.UnOp); ok && u.Op == token.NOT {
+					cond, neg = u.X, true
+				}
+				if ph, ok := cond.(*ssa.Phi); ok && ph.Block() == jb && len(ph.Edges) == 2 {
+					var fromFlag, fromPred ssa.Value
+					for i, p := range jb.Preds {
+						if p == fb {
+							fromPred = ph.Edges[i]
+						} else {
+							fromFlag = ph.Edges[i]
+						}
+					}
+					if cb, isC := constBool(fromFlag); isC && !cb && fromPred != nil {
+						if _, ok := w.isDangerousCall(fromPred); ok {
+							guard = true
+							vfJoin = jb
+							vfDangerTrue, vfDangerFalse = jb.Succs[0], jb.Succs[1]
+							if neg {
+								vfDangerTrue, vfDangerFalse = vfDangerFalse, vfDangerTrue
+							}
+						}
+					}
+				}
+			}
+		}
 		if guard {
 			// the two outcomes of the guard must differ by the URL write only: the write arm W is entered from
 			// "Unsafe" and from "not dangerous", has a single successor J, and the "dangerous" edge goes straight to J
 			// (no other write, no return on the skipping arm)
 			wb := tbU
-			fi := fb.Instrs[len(fb.Instrs)-1].(*ssa.If)
-			dangerousTrue, dangerousFalse := fb.Succs[0], fb.Succs[1]
-			if u, ok := fi.Cond.(*ssa.UnOp); ok && u.Op == token.NOT {
-				dangerousTrue, dangerousFalse = dangerousFalse, dangerousTrue
+			var dangerousTrue, dangerousFalse *ssa.BasicBlock
+			if vfJoin != nil {
+				dangerousTrue, dangerousFalse = vfDangerTrue, vfDangerFalse
+				wb = vfDangerFalse
+				fb = vfJoin
+			} else {
+				fi := fb.Instrs[len(fb.Instrs)-1].(*ssa.If)
+				dangerousTrue, dangerousFalse = fb.Succs[0], fb.Succs[1]
+				if u, ok := fi.Cond.(*ssa.UnOp); ok && u.Op == token.NOT {
+					dangerousTrue, dangerousFalse = dangerousFalse, dangerousTrue
+				}
 			}
 			// J = the target of the skipping edge; every path from the write arm must reach J before any return,
 			// and the skipping edge itself does nothing (it IS the edge into J)
@@ -928,6 +968,33 @@ func ruleFlagUses(w *World, r *Report) {
 					if p != fb && !seen[p] {
 						shapeOK = false
 					}
+				}
+			}
+			// the guard and the write extracted into a helper of their own: the skipping edge returns at once from a
+			// function without results, and the write arm performs the single URL write and returns as well — the two
+			// outcomes rejoin at the helper's exit
+			if !shapeOK && dangerousFalse == wb && wb != j && fn.Signature.Results().Len() == 0 && len(j.Instrs) == 1 && isReturnBlock(j) {
+				sinks, other := 0, false
+				seen := map[*ssa.BasicBlock]bool{}
+				stack := []*ssa.BasicBlock{wb}
+				for len(stack) > 0 {
+					x := stack[len(stack)-1]
+					stack = stack[:len(stack)-1]
+					if seen[x] {
+						continue
+					}
+					seen[x] = true
+					for _, ins := range x.Instrs {
+						if sa.sinkAt(fn, ins) != nil {
+							sinks++
+						} else if c, isCall := ins.(ssa.CallInstruction); isCall && c.Common().IsInvoke() {
+							other = true
+						}
+					}
+					stack = append(stack, x.Succs...)
+				}
+				if sinks == 1 && !other {
+					shapeOK = true
 				}
 			}
 			if shapeOK {
